@@ -120,6 +120,9 @@ type SimConfig struct {
 	// ScanRegistered iterates every registered filter after every op and checks the visited
 	// set against the model (C03: "registered or not").
 	ScanRegistered bool
+	// FreshTwin: after every Reset a brand-new world with the same types, filters and listener
+	// is created and driven in lock-step with the reset world (C15).
+	FreshTwin bool
 	// Trace records, after every op, everything the primary world returned (C13).
 	Trace bool
 	// OwnedIf can claim a finding of a category that is not owned unconditionally.
@@ -147,15 +150,19 @@ type Replay struct {
 
 // Sim drives one world (and optional twins) in lock-step with the model.
 type Sim struct {
-	T    Failer
-	Cfg  SimConfig
-	M    *Model
-	B    *WB
-	L    *WB // loop twin (C08), nil otherwise
-	N    *WB // twin without listener (C11), nil otherwise
-	Ops  []Op
-	Case *Case
-	St   *Stats
+	T   Failer
+	Cfg SimConfig
+	M   *Model
+	B   *WB
+	L   *WB // loop twin (C08), nil otherwise
+	N   *WB // twin without listener (C11), nil otherwise
+	F   *WB // fresh twin of the current reset segment (C15), nil before the first reset
+	// RawDiverged: raw handles of the reset world and its fresh twin may legitimately differ
+	// from now on (DESIGN 4.17).
+	RawDiverged bool
+	Ops         []Op
+	Case        *Case
+	St          *Stats
 
 	Aborted bool // case ended because of an out-of-scope finding
 	Failed  bool
@@ -206,6 +213,9 @@ func NewSim(t Failer, cfg SimConfig, u *Universe, st *Stats, cs *Case) *Sim {
 // also happens without listener is seen there first.
 func (s *Sim) Worlds() []*WB {
 	out := []*WB{}
+	if s.F != nil {
+		out = append(out, s.F)
+	}
 	if s.N != nil {
 		out = append(out, s.N)
 	}
@@ -221,6 +231,15 @@ func (s *Sim) Worlds() []*WB {
 func (s *Sim) Report(f *Finding) {
 	if f == nil || s.Aborted || s.Failed {
 		return
+	}
+	if s.Cfg.FreshTwin && f.Cat != CatHarness {
+		switch {
+		case strings.HasPrefix(f.Msg, "fresh-world:"):
+			// the brand-new world shows it too: not a matter of Reset
+			f = &Finding{Cat: "fresh-world-too:" + f.Cat, Msg: f.Msg}
+		case s.F != nil && f.Cat != CatResetDiff:
+			f = &Finding{Cat: CatResetDiff, Msg: "the reset world differs from a fresh world given the same operations: [" + f.Cat + "] " + f.Msg}
+		}
 	}
 	if !s.Cfg.Owned[f.Cat] && !(s.Cfg.OwnedIf != nil && s.Cfg.OwnedIf(s, f)) {
 		s.Aborted = true
@@ -371,6 +390,9 @@ func (s *Sim) Apply(op Op) {
 	}
 	if s.Cfg.Trace {
 		s.Trace = append(s.Trace, s.traceStep(o, prevHandles))
+	}
+	if s.Cfg.FreshTwin {
+		s.checkFreshHandles(o, prevHandles)
 	}
 	s.VerifyAll()
 }
@@ -1597,6 +1619,12 @@ func (s *Sim) doReset(o *Op) {
 	if len(s.everTgt) > 0 {
 		s.TargetDied = true
 	}
+	if s.Cfg.FreshTwin {
+		s.newFreshTwin()
+		if s.Done() {
+			return
+		}
+	}
 	s.M.Reset()
 	s.everTgt = map[int]bool{}
 	s.DeadTargets = nil
@@ -1713,6 +1741,65 @@ func (s *Sim) checkCache() {
 				s.Report(finding(CatCacheDiff, "%s: registered filter (slot %d) %s: Count()=%d (panic %v), the original filter selects %d", b.Name, slot, c.F.String(), cnt, p, len(plain)))
 				return
 			}
+		}
+	}
+}
+
+// newFreshTwin creates a brand-new world that has the same component and resource types
+// registered, the same filters registered (same filter values, i.e. the same target handles) and
+// the same kind of listener installed as the world that was just reset.
+func (s *Sim) newFreshTwin() {
+	f := NewWB("fresh-world", s.M.U)
+	if s.B.Rec != nil {
+		f.InstallRecorder()
+	}
+	for slot, c := range s.B.Regs {
+		for len(f.Regs) <= slot {
+			f.Regs = append(f.Regs, nil)
+		}
+		if c == nil {
+			continue
+		}
+		tgt := c.Tgt
+		nc := &Compiled{F: c.F, Tgt: tgt}
+		nc.Flt = c.F.Compile(f.ID, func(int) ecs.Entity { return tgt })
+		if p := Call(func() {
+			cf := f.W.Cache().Register(nc.Flt)
+			nc.Cached = &cf
+		}); p != nil {
+			s.Report(finding(CatHarness, "registering filter %s on the fresh twin panicked: %v", c.F.String(), p))
+			return
+		}
+		f.Regs[slot] = nc
+	}
+	// unregistered (stale) filters are not carried over: their use is illegal anyway
+	f.Stale = nil
+	s.F = f
+	s.RawDiverged = false
+}
+
+// checkFreshHandles: a reset world issues the same handles as a fresh one (while implied).
+func (s *Sim) checkFreshHandles(o *Op, prev int) {
+	if s.F == nil || s.Done() {
+		return
+	}
+	if s.Flags["batch.sources"] >= 2 {
+		// A batch call processed several tables in table order, which is not the same in worlds
+		// with different table-creation histories: rows of a shared destination table, or the
+		// order in which removed entities are recycled, may differ from here on.
+		s.RawDiverged = true
+	}
+	if s.RawDiverged || len(s.B.H) != len(s.F.H) || prev > len(s.B.H) {
+		return
+	}
+	a := map[ecs.Entity]bool{}
+	for _, h := range s.B.H[prev:] {
+		a[h] = true
+	}
+	for _, h := range s.F.H[prev:] {
+		if !a[h] {
+			s.Report(finding(CatResetDiff, "creation on the reset world issued handles %v, on a fresh world given the same operations %v: %s", s.B.H[prev:], s.F.H[prev:], o.Describe()))
+			return
 		}
 	}
 }
